@@ -17,3 +17,12 @@ impl LamportTimestamp {
 }
 pub assume_specification [<LamportTimestamp as core::default::Default>::default] () -> (r: LamportTimestamp)
     ensures r == LamportTimestamp(0u64);
+
+// Assumed meaning of `#[derive(PartialOrd)]` on the single-field tuple struct Timestamp(u64):
+// the order of the field (Rust reference, derive(PartialOrd): lexicographic over fields).
+impl PartialOrdSpecImpl for Timestamp {
+    open spec fn obeys_partial_cmp_spec() -> bool { true }
+    open spec fn partial_cmp_spec(&self, other: &Timestamp) -> Option<Ordering> {
+        if self.0 < other.0 { Some(Ordering::Less) } else if self.0 == other.0 { Some(Ordering::Equal) } else { Some(Ordering::Greater) }
+    }
+}
